@@ -51,4 +51,36 @@ def run(c, parts=None):
             c.gen_obligation("translate %s (%s)" % (t[2], t[1]), ok, "" if ok else "(" + line[:600] + ")")
     if seen == 0 or (rc != 0 and "FAILED" not in out):
         c.gen_obligation("translate (gen_ptrmodels.py ran)", False, "(rc=%d %s)" % (rc, (out + err)[-600:]))
+    if "rb" in parts:
+        _rb_line_labels(c)
     return rc == 0
+
+
+def _rb_line_labels(c):
+    """informational: RbPtr.v labels its failure outcomes with source lines.  The tie is stated for the model's labels
+    (PtrGen/Tie_rb.model_lines, by failure site); the generated file also records the lines of the CURRENT source
+    (Gen/Ptr_rb.src_lines).  A difference means rbtree.hpp moved lines (a comment, an edit elsewhere) -- not a broken tie."""
+    import re
+
+    def table(path, name):
+        try:
+            txt = open(path).read()
+        except OSError:
+            return None
+        i = txt.find("Definition %s" % name)
+        if i < 0:
+            return None
+        return dict((int(a), int(b)) for a, b in re.findall(r"\| (\d+)%nat => (\d+)%N", txt[i:]))
+    src = table(os.path.join(vlib.COQ, "Gen", "Ptr_rb.v"), "src_lines")
+    mod = table(os.path.join(vlib.COQ, "PtrGen", "Tie_rb.v"), "model_lines")
+    if src is None or mod is None:
+        return
+    c.count("ptrgen.rb_failure_sites", len(src))
+    diff = sorted(k for k in set(src) | set(mod) if src.get(k) != mod.get(k))
+    if len(src) != len(mod):
+        c.notes.append("ptrgen rb: the source has %d failure sites, the tie was written for %d (the tie lemmas decide)" % (len(src), len(mod)))
+    elif diff:
+        c.count("ptrgen.rb_line_labels_moved", len(diff))
+        c.notes.append("ptrgen rb: %d failure sites of rbtree.hpp are on other lines than the labels of Rb/RbPtr.v (first: site %d, "
+                       "source line %d, model label %d); labels only, the tie is stated for the model's labels" % (
+                           len(diff), diff[0], src[diff[0]], mod[diff[0]]))
